@@ -9,6 +9,7 @@ import (
 	"path/filepath"
 	"strings"
 	"sync"
+	"sync/atomic"
 	"time"
 )
 
@@ -42,6 +43,7 @@ var solvers = []solverSpec{
 }
 
 var workDir string
+var queryCounter int64
 
 func initWorkDir() error {
 	base := os.Getenv("QV_WORK")
@@ -103,10 +105,12 @@ func runSolver(ctx context.Context, sp solverSpec, script string, timeoutS int, 
 // that must answer unsat before the others are cancelled.
 func solve(name, script string, timeoutS int, need int) *SolveResult {
 	res := &SolveResult{}
-	base := filepath.Join(workDir, sanitize(name))
-	if len(base) > 200 {
-		base = base[:200]
+	// unique file per query: names that differ only in punctuation must never share a file
+	sn := sanitize(name)
+	if len(sn) > 120 {
+		sn = sn[:120]
 	}
+	base := filepath.Join(workDir, fmt.Sprintf("%s.%08x.%d", sn, hashString(name), atomic.AddInt64(&queryCounter, 1)))
 	type ans struct {
 		sp     solverSpec
 		st     string
